@@ -543,6 +543,11 @@ func (r *Reader) extractTextWithFragments(page *pages.Page) (*text.Extractor, []
 			return nil, nil, fmt.Errorf("failed to decode content stream: %w", err)
 		}
 		allData = append(allData, data...)
+		// The streams of a /Contents array are split at token boundaries, but a
+		// part need not end in white space: keep "... Tj" and "ET ..." apart.
+		if len(data) > 0 {
+			allData = append(allData, '\n')
+		}
 	}
 
 	if len(allData) == 0 {
